@@ -33,6 +33,13 @@ def check(spec):
             a.charges[0] += 0.003 - a.charges.sum()
         va = gen.view(a)
         reps = tuple(spec['reps'])
+        if spec.get('reps_as') == 'default':
+            try:
+                r0 = a.replicate()           # no factors given: the documented default (1, 1, 1), i.e. an equal copy
+            except Exception as e:
+                return "replicate() raised %r" % (e,)
+            if gen.view(r0) != va:
+                return "replicate() without factors does not give an equal copy of the structure"
         if spec.get('reps_as') == 'array':
             reps = np.array(spec['reps'])          # what the command line's --mic path passes
         elif spec.get('reps_as') == 'list':
@@ -124,7 +131,7 @@ def run(rec, tier, seed):
     # the replication triple given as a numpy array / a list; a cell with a small residual net charge
     for ci, cell in enumerate(CELLS):
         for r in ((1, 1, 1), (2, 1, 1), (1, 2, 2)):
-            for as_ in ('array', 'list'):
+            for as_ in ('array', 'list', 'default'):
                 spec = dict(cell=cell, n=3, seed=seed + 5, terms=True, coeffs=True, extra=False, kinds=None, reps=list(r), reps_as=as_, tiny_net=bool((ci + len(as_)) % 2))
                 msg = check(spec)
                 rec.case(repr(spec), group='triple-as-array-or-list')
